@@ -17,9 +17,11 @@ H.append({"name":"H_resume","tiers":Q,"scale":"b2","bounds":"optimized patches (
   "param_sets":grid([10,11],[0,1],[1],range(0,5),[0,1],[ALWAYS],[0])})
 H.append({"name":"H_resume","tiers":Q,"scale":"b2","bounds":"chains of two interruptions: the run resumed from checkpoint keep is itself stopped at its keep2-th checkpoint and a third process finishes; rsync (symbolic) and bsdiff (concrete) series, fresh and overlay bowls",
   "param_sets":[dict(x,keep2=k2) for x in grid([0,1],[0,1],[0],[0,2,4],[0,1],[ALWAYS],[0]) for k2 in (0,1,3)]+[dict(x,keep2=k2) for x in grid([10,11],[0,1],[1],[0,2],[0],[ALWAYS],[0]) for k2 in (0,2)]})
+H.append({"name":"H_resume","tiers":Q,"scale":"b2","bounds":"patches written through the model codecs: the checkpoint then carries the decompressing source's own (gob-registered, nested) checkpoint; rsync and bsdiff series, fresh and overlay bowls, checkpoints 0..5, lag 0/1",
+  "param_sets":[dict(x,comp=c) for x in grid([0,1],[0,1],[0],range(0,6),[0,1],[ALWAYS],[0]) for c in (1,2)]+[dict(x,comp=1) for x in grid([10],[0,1],[1],range(0,4),[0],[ALWAYS],[0])]})
 H.append({"name":"H_resume","tiers":T,"scale":"b2","bounds":"all of the above with lag 0..4, sparse save schedules (patterns 0b0101.., 0b0011.., 0b1000..), optimized patches for both shapes","max_seconds":1500,
   "param_sets":grid([0,1],[0,1],[0],range(0,10),[0,1,2,4],[ALWAYS,0x55555555&0x3fffffff,0x33333333&0x3fffffff,0x8],[1])+grid([10,11],[0,1],[1],range(0,10),[0,1,2,4],[ALWAYS,0x55555555&0x3fffffff,0x8],[1])})
 json.dump({"property":"C03","package":"c03","scale":scale,"harnesses":H,
  "stubs":["os -> memfs, md5/protobuf models","encoding/gob -> deep copy of exported fields with the registered-type check","interruption = the consumer stops the patcher k+lag checkpoints in, then the in-progress output is truncated (the property's own interruption model)"],
- "outside":["gzip/brotli checkpoint formats (codecs not encodable)","chains of more than two interruptions","power-loss reordering of writes","crashes inside Commit"]},open("config.json","w"),indent=1)
+ "outside":["real gzip/brotli checkpoint formats (codecs not encodable; a model codec with its own nested checkpoint stands in)","chains of more than two interruptions","power-loss reordering of writes","crashes inside Commit"]},open("config.json","w"),indent=1)
 for h in H: print(h["name"],h["tiers"],h.get("scale"),len(h.get("param_sets",[1])))
